@@ -288,7 +288,10 @@ def rule_tests(ctx, px):
     ok = want_attr in rets and want_val in rets and len(rets) == 2
     ctx.ob(R, f.module.rel, f"{f.short} :: predicate = isinstance(value or attribute.data_type, class)", ok,
            "" if ok else f"predicate returns {rets}", pred.lineno)
-    tdict = f.node.args.args[2].arg if len(f.node.args.args) > 2 else "tests"
+    rnames = {r.value.id for r in ast.walk(f.node) if isinstance(r, ast.Return) and isinstance(r.value, ast.Name)}
+    if len(rnames) != 1:
+        raise AnalysisError("anchor changed: _create_instance_tests_for_type no longer returns one local mapping")
+    tdict = next(iter(rnames))
     stores = [s for s in ast.walk(f.node) if isinstance(s, ast.Assign) and ast.unparse(s.targets[0]).startswith(f"{tdict}[")]
     ok = bool(stores) and all(ast.unparse(s.value) == pred.name for s in stores)
     ctx.ob(R, f.module.rel, f"{f.short} :: name and alias are bound to the same predicate", ok, "", f.node.lineno)
